@@ -170,6 +170,7 @@ type world struct {
 	quiet    bool
 	stripped bool // environment fact: a backup/restore stripped the owner references earlier in this run
 	fetches  int
+	hidePinned bool // reads of CompositionRevisions by the XR's client answer NotFound
 	xcalls   int
 }
 
@@ -254,7 +255,7 @@ func (w *world) post() map[string]any {
 }
 
 func noFetch() map[string]any {
-	return map[string]any{"pol": "none", "sel": "none", "pinned": "none", "got": "none", "err": false, "ref": "none"}
+	return map[string]any{"pol": "none", "sel": "none", "pinned": "none", "got": "none", "err": false, "ref": "none", "hidden": false}
 }
 
 func (w *world) seenCopy() map[string]any {
@@ -405,6 +406,7 @@ func (w *world) fetch(pol, sel string) {
 	if r := x.GetCompositionRevisionReference(); r != nil {
 		f["pinned"] = w.contentOfRevName(r.Name)
 	}
+	f["hidden"] = w.hidePinned
 	w.xc.BeginReconcile()
 	rev, err := w.fetcher.Fetch(context.Background(), x)
 	switch {
@@ -429,6 +431,7 @@ func newWorld(tw *trace.Writer, id string, init map[string]any) *world {
 	s := simapi.NewServer(sch)
 	c := simapi.NewClient(s, "revisions")
 	xc := simapi.NewClient(s, "xr")
+	s.KeepHistory(simapi.Key{Group: "apiextensions.crossplane.io", Kind: "CompositionRevision"}.GK())
 	w := &world{s: s, c: c, xc: xc, tab: tableFor(init), tw: tw, scenID: id, seen: map[string]any{}, touched: map[string]bool{}}
 	pu := s.Put(buildComp(w.tab.byID[init["comp"].(string)]))
 	w.compUID = pu.GetUID()
@@ -436,6 +439,9 @@ func newWorld(tw *trace.Writer, id string, init map[string]any) *world {
 	x.SetName(xrName)
 	x.SetCompositionReference(&corev1.ObjectReference{Name: compName})
 	s.Put(x)
+	xc.StaleGet = func(k simapi.Key, _ []*unstructured.Unstructured) (*unstructured.Unstructured, bool) {
+		return nil, w.hidePinned && k.Kind == "CompositionRevision" // answers NotFound while the revisions are hidden
+	}
 	w.rec = composition.NewReconciler(&fakes.Manager{Client: c, Sch: sch})
 	// the XR reconciler builds its fetcher exactly like this (composite.NewReconciler)
 	w.fetcher = composite.NewAPIRevisionFetcher(resource.ClientApplicator{Client: xc, Applicator: resource.NewAPIPatchingApplicator(xc)})
@@ -544,6 +550,12 @@ func run(tw *trace.Writer, id string, hist []replay.Entry, variant simapi.Decisi
 	if extra > 0 {
 		// what an XR would select now, under each policy
 		w.fetch("Automatic", "none")
+		w.fetch("Manual", "none")
+		// and a Manual XR whose pinned revision cannot be read right now (a lagging cache, a restore that brings XRs back
+		// before revisions): it must keep its reference, not move (added after the seeded change C12-m2 was missed)
+		w.hidePinned = true
+		w.fetch("Manual", "none")
+		w.hidePinned = false
 		w.fetch("Manual", "none")
 	}
 	sum.Runs++
